@@ -1,3 +1,5 @@
+//go:build !noh3
+
 package verifharness
 
 import (
